@@ -20,6 +20,7 @@ func init() {
 	register(&Rule{ID: "C05.R7", Prop: "C05", Floor: 4, Doc: "the proof updater hands out pointers into the transaction itself, never into a loop copy", Run: c05r7})
 	register(&Rule{ID: "C05.R8", Prop: "C05", Floor: 2, Doc: "rebuilding the pool restarts its weight from zero before re-adding transaction weights", Run: c05r8})
 	register(&Rule{ID: "C05.R9", Prop: "C05", Floor: 16, Doc: "the element store the v1 pool is validated against is restored exactly by a revert and never holds an output created and spent inside one block (same table as C02.R1)", Run: c02r1})
+	register(&Rule{ID: "C05.R11", Prop: "C05", Floor: 2, Doc: "the pool is reported by deep copy: what a caller holds for tip T is not rewritten when the pool moves its proofs to T+1 (same check as C14.R3)", Run: c14r3})
 	register(&Rule{ID: "C05.R10", Prop: "C05", Floor: 2, Doc: "the pool's weight grows by the weight of exactly the transactions stored into the pool lists (directly or through an accumulator)", Run: c05r10})
 	register(&Rule{ID: "C05.R6", Prop: "C05", Floor: 1, Doc: "moving pooled proofs does not declare ephemeral inputs invalid (same check as C13.R6)", Run: ephemeralSkipped})
 }
